@@ -503,7 +503,12 @@ class GenI(object):
         if r < 0.97 and depth > 0:
             # a compound statement (it opens no scope): the statement b - often an import - sits in its body, in an exception handler,
             # in a finally clause, under a case of a match statement
-            return {"t": "seq", "a": {"t": "expr", "e": self.expr(depth - 1)}, "b": self.stmt(depth - 1, accepted_only),
+            cond = self.expr(depth - 1)
+            if cond["t"] in ("const", "app"):
+                # (a condition that the compiler can fold to a constant lets it drop the branch that cannot run - and with it the
+                # names the oracle looks for: the condition starts with a name)
+                cond = {"t": "app", "f": self.use(self.rng.choice(I_VRS + I_LOCALS)), "a": cond, "shape": "plus"}
+            return {"t": "seq", "a": {"t": "expr", "e": cond}, "b": self.stmt(depth - 1, accepted_only),
                     "style": self.rng.choice(["if", "else", "except", "finally", "with", "while", "match", "tryelse"])}
         return {"t": "skip"}
 
